@@ -168,10 +168,15 @@ def verify_function(ex, key, timeout_ms=10000, extra_pre=()):
         a = NS(args)
         st = St()
         pre_conds = []
+        from contracts import common as _cm
+        unfold = set(getattr(spec, "unfold", ()))
+        _cm.UNFOLD = unfold
         for c in spec.pre:
             cond = c.fn(a)
             pre_conds.append((c.name, cond))
             st = st.assume(cond)
+        _cm.UNFOLD = set()
+        links = _cm.take_links()
         for c in extra_pre:
             st = st.assume(c)
         # vacuity: the precondition must be satisfiable
@@ -179,7 +184,7 @@ def verify_function(ex, key, timeout_ms=10000, extra_pre=()):
             rep.status = "error"
             rep.detail = "vacuous contract: precondition unsatisfiable"
             return rep
-        ret_ty = spec.ret_ty(ex)
+        ret_ty = spec.ret_ty(ex) if getattr(spec, "report_type", None) is None else None
         ex.cur_key = key
         ex.obligations = []
         ex.iface_used = set()
@@ -188,6 +193,7 @@ def verify_function(ex, key, timeout_ms=10000, extra_pre=()):
         outs = list(ex.run_function(fv, args, st))
         ex.cur_key = None
         axioms = ex.base_axioms()
+        _cm.UNFOLD = unfold
         for i, out in enumerate(outs):
             if out.kind == "raise":
                 rep.raise_paths += 1
@@ -199,20 +205,40 @@ def verify_function(ex, key, timeout_ms=10000, extra_pre=()):
                                                 meta={"z3model": m, "args": args, "path": i}))
                 continue
             rep.paths += 1
+            if getattr(spec, "report_type", None) is not None:
+                from .exec import Report
+                from .builtins import call_builtin
+                rv = out.val
+                ok_shape = isinstance(rv, Report) and isinstance(rv.fields, PyDict)
+                rt = ex.world.class_ty("ReportType")
+                want = spec.report_fields(a)
+                got = {k: v for k, v in rv.fields.items if isinstance(k, str)} if ok_shape else {}
+                conds = [v_eq(rv.rtype, Sym(rt, rt.const(spec.report_type)))] if ok_shape else [False]
+                for fname, fval in want.items():
+                    if fname not in got:
+                        conds.append(False)
+                    else:
+                        conds.append(v_eq(got[fname], fval))
+                    goal = conds[-1]
+                    status, be, secs, mt, m = solve(out.st.hyps, z3_bool(goal), axioms, timeout_ms)
+                    rep.results.append(ObResult(f"{key}.report_field.{fname}.path{i}", "ensures", status, be, secs,
+                                                spec.report_props, model=mt, meta={"path": i}))
+                continue
             res = normalize(out.val, ret_ty)
             for c in spec.post:
+                _cm.take_links()
                 goal = c.fn(a, res, reports=out.st.reports) if "reports" in c.fn.__code__.co_varnames[:c.fn.__code__.co_argcount] else c.fn(a, res)
                 if isinstance(goal, bool) and goal:
                     rep.results.append(ObResult(f"{key}.{c.name}.path{i}", "ensures", "proved", "trivial", 0.0, c.props))
                     continue
-                status, be, secs, mt, m = solve(out.st.hyps, z3_bool(goal), axioms, timeout_ms)
+                status, be, secs, mt, m = solve(list(out.st.hyps) + links + _cm.take_links(), z3_bool(goal), axioms, timeout_ms)
                 rep.results.append(ObResult(f"{key}.{c.name}.path{i}", "ensures", status, be, secs, c.props, model=mt,
                                             meta={"z3model": m, "args": args, "result": res, "path": i}))
             if len(rep.path_samples) < 3:
                 rep.path_samples.append({"path": i, "pc": [str(z3.simplify(p))[:200] for p in out.st.pc[:8]],
                                          "result": repr(res)[:300], "reports": [repr(r) for r in out.st.reports]})
         for ob in ex.obligations:
-            status, be, secs, mt, m = solve(ob.hyps, ob.goal, axioms, timeout_ms)
+            status, be, secs, mt, m = solve(list(ob.hyps) + links, ob.goal, axioms, timeout_ms)
             rep.results.append(ObResult(ob.oid, ob.kind, status, be, secs, (), model=mt, meta={"z3model": m, "args": args}))
         if rep.paths == 0 and rep.raise_paths == 0:
             rep.status = "error"
@@ -227,5 +253,10 @@ def verify_function(ex, key, timeout_ms=10000, extra_pre=()):
         rep.detail = "".join(traceback.format_exception_only(type(e), e)) + traceback.format_exc()[-1500:]
     finally:
         ex.cur_key = None
+        try:
+            from contracts import common as _cm2
+            _cm2.UNFOLD = set()
+        except Exception:  # noqa
+            pass
     rep.secs = time.time() - t0
     return rep
